@@ -524,6 +524,37 @@ def cases(rng, tier):
     for s1, s2 in (((3,), (3,)), ((2, 3), (2, 3)), ((3,), (4, 3)), ((2, 3), (3,)), ((2,), (2,))):
         tag = "shapes=%s,%s%s" % (s1, s2, " broadcast" if s1 != s2 else "")
         lin("cross", tag, (lambda m, a, b: m.cross(a, b)), [iarr(rng, s1), iarr(rng, s2)], (0, 1))
+    # ---- positional call forms: the optional arguments of NumPy's signatures given by position ----
+    P23, P232 = distinct(rng, (2, 3)), distinct(rng, (2, 3, 2))
+    for tag, f, x, ex in (
+        ("sum(x,1)", lambda m, z: m.sum(z, 1), iarr(rng, (2, 3)), True), ("sum(x,(0,2),None,None,True)", lambda m, z: m.sum(z, (0, 2), None, None, True), iarr(rng, (2, 3, 2)), True),
+        ("mean(x,0)", lambda m, z: m.mean(z, 0), P23, False), ("mean(x,-1,None,None,True)", lambda m, z: m.mean(z, -1, None, None, True), P232, False),
+        ("var(x,1)", lambda m, z: m.var(z, 1), P23, False), ("var(x,0,None,None,1)", lambda m, z: m.var(z, 0, None, None, 1), P23, False),
+        ("std(x,1,None,None,0,True)", lambda m, z: m.std(z, 1, None, None, 0, True), P23, False),
+        ("max(x,1)", lambda m, z: m.max(z, 1), P23, False), ("min(x,0,None,True)", lambda m, z: m.min(z, 0, None, True), P23, False),
+        ("prod(x,1)", lambda m, z: m.prod(z, 1), P23, False), ("cumsum(x,1)", lambda m, z: m.cumsum(z, 1), iarr(rng, (2, 3)), True),
+        ("sort(x,0)", lambda m, z: m.sort(z, 0), P23, False), ("repeat(x,2,1)", lambda m, z: m.repeat(z, 2, 1), iarr(rng, (2, 3)), True),
+        ("roll(x,1,0)", lambda m, z: m.roll(z, 1, 0), iarr(rng, (2, 3)), True), ("expand_dims(x,1)", lambda m, z: m.expand_dims(z, 1), iarr(rng, (2, 3)), True),
+        ("squeeze(x,0)", lambda m, z: m.squeeze(z, 0), iarr(rng, (1, 3)), True), ("flip(x,1)", lambda m, z: m.flip(z, 1), iarr(rng, (2, 3)), True),
+        ("take(x,[0,2],1)", lambda m, z: m.take(z, [0, 2], 1), iarr(rng, (2, 3)), True), ("diff(x,1,0)", lambda m, z: m.diff(z, 1, 0), iarr(rng, (3, 2)), True),
+        ("linalg.norm(x,None,1)", lambda m, z: m.linalg.norm(z, None, 1), P23, False), ("linalg.norm(x,3,0)", lambda m, z: m.linalg.norm(z, 3, 0), P23, False),
+        ("pad(x,1,'constant')", lambda m, z: m.pad(z, 1, "constant"), iarr(rng, (2, 3)), True), ("clip(x,-1,1)", lambda m, z: m.clip(z, -1.0, 1.0), P23, False),
+        ("tile(x,(2,1))", lambda m, z: m.tile(z, (2, 1)), iarr(rng, (2, 3)), True), ("reshape(x,(3,2),'C')", lambda m, z: m.reshape(z, (3, 2), "C"), iarr(rng, (2, 3)), True),
+        ("transpose(x,(1,0))", lambda m, z: m.transpose(z, (1, 0)), iarr(rng, (2, 3)), True), ("swapaxes(x,0,2)", lambda m, z: m.swapaxes(z, 0, 2), iarr(rng, (2, 3, 2)), True),
+        ("moveaxis(x,0,-1)", lambda m, z: m.moveaxis(z, 0, -1), iarr(rng, (2, 3, 2)), True), ("trace(x,1,0,1)", lambda m, z: m.trace(z, 1, 0, 1), iarr(rng, (3, 3)), True),
+        ("diagonal(x,0,2,0)", lambda m, z: m.diagonal(z, 0, 2, 0), iarr(rng, (2, 3, 2)), True), ("triu(x,1)", lambda m, z: m.triu(z, 1), iarr(rng, (3, 3)), True),
+        ("concatenate((x,y),1)", lambda m, z: m.concatenate((z, 2 * z), 1), iarr(rng, (2, 3)), True), ("stack((x,y),1)", lambda m, z: m.stack((z, 2 * z), 1), iarr(rng, (2, 3)), True),
+        ("tensordot(x,B,1)", lambda m, z: m.tensordot(z, onp.arange(6.0).reshape(3, 2), 1), iarr(rng, (2, 3)), True),
+        ("x.sum(1)", lambda m, z: z.sum(1), iarr(rng, (2, 3)), True), ("x.mean(0)", lambda m, z: z.mean(0), P23, False), ("x.max(1)", lambda m, z: z.max(1), P23, False),
+        ("x.reshape(3,2)", lambda m, z: z.reshape(3, 2), iarr(rng, (2, 3)), True), ("x.transpose(1,0)", lambda m, z: z.transpose(1, 0), iarr(rng, (2, 3)), True),
+        ("x.swapaxes(0,1)", lambda m, z: z.swapaxes(0, 1), iarr(rng, (2, 3)), True), ("x.cumsum(0)", lambda m, z: z.cumsum(0), iarr(rng, (2, 3)), True),
+        ("x.clip(-1,1)", lambda m, z: z.clip(-1.0, 1.0), P23, False), ("x.repeat(2,0)", lambda m, z: z.repeat(2, 0), iarr(rng, (2, 3)), True),
+        ("x.take([1,0],1)", lambda m, z: z.take([1, 0], 1), iarr(rng, (2, 3)), True), ("x.dot(B)", lambda m, z: z.dot(onp.arange(6.0).reshape(3, 2)), iarr(rng, (2, 3)), True),
+        ("x.std(1)", lambda m, z: z.std(1), P23, False), ("x.var(0)", lambda m, z: z.var(0), P23, False), ("x.prod(1)", lambda m, z: z.prod(1), P23, False),
+        ("x.diagonal(0,1,0)", lambda m, z: z.diagonal(0, 1, 0), iarr(rng, (3, 3)), True), ("x.trace()", lambda m, z: z.trace(), iarr(rng, (3, 3)), True),
+        ("x.squeeze(0)", lambda m, z: z.squeeze(0), iarr(rng, (1, 3)), True), ("x.flatten()", lambda m, z: z.flatten(), iarr(rng, (2, 3)), True),
+    ):
+        add("positional", tag, f, [x], [0], ex)
     # ---- linalg (numeric oracle) ----
     def spd(n):
         a = distinct(rng, (n, n))
